@@ -388,15 +388,18 @@ def find_loops(toks: List[Tok], lo: int, hi: int) -> List[Loop]:
                 continue
             j = i + 1
             depth = 0
+            seen_in = t.text != 'for'       # a `for` pattern may contain braces (struct pattern): the body comes after `in`
             while j < hi:
                 tt = toks[j]
+                if tt.kind == 'ident' and tt.text == 'in' and depth == 0:
+                    seen_in = True
                 if tt.kind == 'punct':
                     if tt.text in ('(', '['):
                         depth += 1
                     elif tt.text in (')', ']'):
                         depth -= 1
                     elif tt.text == '{':
-                        if depth == 0:
+                        if depth == 0 and seen_in:
                             break
                         j = match_close(toks, j)
                 j += 1
